@@ -1,5 +1,6 @@
+import copy
 import itertools
-from typing import Callable, Generic, Iterable, Iterator, MutableSet, Optional, TypeVar
+from typing import Any, Callable, Generic, Iterable, Iterator, MutableSet, Optional, TypeVar
 from .. import base
 from ..spacing import Newline, Whitespace
 from ..block_comment import BlockComment
@@ -149,10 +150,14 @@ class RepeatedNodeWithInterleavingCommentsWrapper(properties.RepeatedNodeWrapper
             self,
             repeated: repeated.Repeated[_M | BlockComment],
             field: fields.repeated_field,
-            model: base.RawTreeModel,
+            model: Optional[base.RawTreeModel],
     ) -> None:
         super().__init__(repeated, field)
+        # The owner bounds the search for comments around the list; a copy has none until it is assigned to a model.
         self._model = model
+
+    def __deepcopy__(self, memo: dict[int, Any]) -> 'RepeatedNodeWithInterleavingCommentsWrapper[_M]':
+        return type(self)(copy.deepcopy(self._repeated, memo), self._field, None)
 
     def claim_interleaving_comments(
             self,
@@ -161,7 +166,7 @@ class RepeatedNodeWithInterleavingCommentsWrapper(properties.RepeatedNodeWrapper
         return tuple(_CommentClaimer(
             self._repeated,
             self._notify,
-            self._model,
+            self._model or self._repeated,
             comments).claim())
 
     def unclaim_interleaving_comments(
@@ -216,5 +221,6 @@ class repeated_node_with_interleaving_comments_property(
         repeated = self._inner_field.__get__(instance)
         properties.replace_node(repeated, value.repeated)
         self._inner_field.__set__(instance, value.repeated)
+        value._model = instance
         instance.__dict__[self._attr] = value
         properties.drop_cached_views(instance)
